@@ -537,10 +537,7 @@ def recheck(r):
             if s0 == 'solved' and s1 == 'solved' and v1 < v0 - 1e-4 * max(1.0, abs(v0)) and not (math.isinf(v0) and v0 < 0):
                 return 'monotonicity: the bound decreases from %.8g (ell = 0) to %.8g (ell = 1) on R^n' % (v0, v1)
     # violations that carry the tag of a recorded finding are that finding, not a new failure of the stored input
-    for what, _, tags in ctx.violations:
-        if not tags:
-            return what
-    return None
+    return ctx.first('C06')
 
 
 def replay(obj):
